@@ -6,6 +6,7 @@ import (
 	"fmt"
 	"go/types"
 	"math/big"
+	"os"
 	"strings"
 )
 
@@ -123,6 +124,9 @@ func init() {
 	})
 	ext("Note", func(fr *frame, a []value) value {
 		x := theEngine.X
+		if debugUnwind {
+			fmt.Fprintf(os.Stderr, "NOTE path=%d: %s\n", x.Paths, a[0].(string))
+		}
 		if len(x.obs) < 12 {
 			x.obs = append(x.obs, a[0].(string))
 		}
